@@ -1,6 +1,6 @@
 """Shared discovery for the weight-accounting rules (C01, C05, C06, C16): the total-weight lock's write
 sites and their classification, the space query, space atoms, admitting functions."""
-from core import (subst_params, strip_site, subexprs, root_calls, bool_branches, variant_edges, lock_call, dashmap_call,
+from core import (inline_ctor, field_path, subst_params, strip_site, subexprs, root_calls, bool_branches, variant_edges, lock_call, dashmap_call,
                   is_call_to, fmt, mentions, const_of)
 
 
@@ -231,3 +231,46 @@ def abstract_args(W, args):
         return go(W)
     except KeyError:
         return None
+
+
+def accounting_flow(ctx, M, RULE):
+    """amounts added to / removed from the total agree with the weight recorded per id (R01.4 = R05.4)"""
+    F = ctx.facts
+    for s in M.inc_sites:
+        f = s["fn"]
+        X = s["amount"]
+        if X[0] == "binop" and X[1] == "Sub":
+            new, old = X[2], X[3]
+            roots = [c for c in root_calls(old) if "DashMap" in c[1] and ("get_mut" in c[1] or "::get" in c[1])]
+            okroot = bool(roots) and field_path(old)[1][-1:] == ["weight"]
+            stored = [(b, i) for (b, i, tgt, rv, st) in f.stores()
+                      if strip_site(tgt) == strip_site(old) and strip_site(rv) == strip_site(new)]
+            ctx.check(okroot and bool(stored), RULE, "%s|update-delta" % f.name,
+                      "update: delta = new - recorded weight of the same id, and the recorded weight becomes new",
+                      f.where(s["bb"], s["idx"]), "delta=%s" % fmt(X))
+            if stored:
+                ctx.check(f.must_pass([s["bb"]], [b for b, i in stored]) or any(f.block_dominates(b, s["bb"]) for b, i in stored),
+                          RULE, "%s|update-records-on-all-paths" % f.name,
+                          "whenever the total is adjusted the recorded weight is rewritten too", f.where(s["bb"], s["idx"]))
+        else:
+            ins = [(bb, t) for bb, t in f.calls() if dashmap_call(t) == ("insert", "KW")]
+            good = False
+            for bb, t in ins:
+                v = inline_ctor(F, f.op_origin(t["args"][2]))
+                if v[0] == "agg":
+                    w = dict(v[3]).get("weight")
+                    if w is not None and strip_site(w) == strip_site(X):
+                        good = f.block_dominates(bb, s["bb"]) or f.must_pass([s["bb"]], [bb])
+            ctx.check(good, RULE, "%s|add-records-same-weight" % f.name,
+                      "add: the amount added to the total is the weight recorded for the id in the weight map (same function, all paths)",
+                      f.where(s["bb"], s["idx"]), "amount=%s" % fmt(X))
+    for s in M.dec_sites:
+        f = s["fn"]
+        X = s["amount"]
+        roots = [c for c in root_calls(X) if dashmap_call({"rpath": c[1], "gargs": ["u64", "WeightedKey"]}) and "remove" in c[1]]
+        names = field_path(X)[1]
+        keyarg_ok = bool(roots) and roots[0][2][1][0] == "param"
+        ctx.check(bool(roots) and names[-1:] == ["weight"] and keyarg_ok, RULE, "%s|release-recorded-weight" % f.name,
+                  "delete: the amount subtracted is the weight recorded in the entry just removed from the weight map by the same id",
+                  f.where(s["bb"], s["idx"]), "amount=%s" % fmt(X))
+
